@@ -66,12 +66,46 @@ Definition obs_ok (c : code) (t : table) (o : observation unit) : bool :=
   let '(running, lasti, st, tr) := o in
   tres_ok (trickery c t running lasti st) (expected tr).
 
-(* which observations a check is about: suspended frames (C01), running frames (C02) *)
-Inductive ckind := KSusp | KRun.
+(* ---- referents mode (C20): the over-approximation demanded of a suspended frame ---- *)
+Fixpoint subseqb (a b : list nat) : bool :=
+  match a, b with
+  | [], _ => true
+  | _ :: _, [] => false
+  | x :: a', y :: b' => if x =? y then subseqb a' b' else subseqb a b'
+  end.
+Fixpoint nodupb (l : list nat) : bool :=
+  match l with [] => true | x :: r => negb (mem_nat x r) && nodupb r end.
+Definition is_exiting_ph {I} (e : tent I) : bool := phase_eqb (t_phase e) Exiting.
+
+Definition ref_ok (c : code) (t : table) (o : observation unit) : bool :=
+  let '(_, lasti, st, tr) := o in
+  let N := map fst (exits_on_stack st) in
+  subseqb (map t_site (filter is_active tr)) N
+  && forallb (fun s => mem_nat s (map t_site tr)) N
+  && nodupb N
+  && nodupb (map t_site tr)
+  && forallb (fun e : tent unit => Bool.eqb (t_async e) (site_async c (t_site e))) tr
+  && match exiting c t lasti, filter is_exiting_ph tr with
+     | ESome asy _, [e] => Bool.eqb asy (t_async e)
+     | ENone, [] => true
+     | _, _ => false
+     end.
+
+(* which observations a check is about: suspended frames in trickery mode (C01), running
+   frames (C02), suspended frames in referents mode (C20) *)
+Inductive ckind := KSusp | KRun | KRef.
+
+Definition obs_check (k : ckind) (c : code) (t : table) (o : observation unit) : bool :=
+  let '(running, _, _, _) := o in
+  match k with
+  | KSusp => running || obs_ok c t o
+  | KRun => negb running || obs_ok c t o
+  | KRef => running || ref_ok c t o
+  end.
 
 Definition obs_sel (k : ckind) (o : observation unit) : bool :=
   let '(running, _, _, _) := o in
-  match k with KSusp => negb running | KRun => running end.
+  match k with KSusp | KRef => negb running | KRun => running end.
 
 Definition check_pc (k : ckind) (c : code) (t : table) (ct : cert) (p : nat) : bool :=
   match cert_at ct p with
@@ -82,7 +116,7 @@ Definition check_pc (k : ckind) (c : code) (t : table) (ct : cert) (p : nat) : b
          | Some succs => forallb (ok_succ ct) succs
          | None => false
          end
-      && forallb (fun o => negb (obs_sel k o) || obs_ok c t o) (obs c a)
+      && forallb (obs_check k c t) (obs c a)
   end.
 
 Definition checkk (k : ckind) (c : code) (t : table) (ct : cert) : bool :=
